@@ -10,12 +10,16 @@ pub struct Counting;
 
 static MAX_REQ: AtomicUsize = AtomicUsize::new(0);
 static CAP: AtomicUsize = AtomicUsize::new(usize::MAX);
+/// Requests above this are reported on stdout even when they are served (so that the parent knows about them when it
+/// has to kill the child).
+static REPORT_FROM: AtomicUsize = AtomicUsize::new(usize::MAX);
 
 pub fn reset_max() { MAX_REQ.store(0, Relaxed); }
 pub fn max_request() -> usize { MAX_REQ.load(Relaxed) }
 pub fn set_cap(cap: usize) { CAP.store(cap, Relaxed); }
+pub fn set_report_from(n: usize) { REPORT_FROM.store(n, Relaxed); }
 
-fn report_refused(size: usize) {
+fn report(size: usize, refused: bool) {
     // no allocation, no locks: format by hand and write(2) to stdout
     let mut buf = [0u8; 40];
     let mut i = buf.len();
@@ -32,14 +36,15 @@ fn report_refused(size: usize) {
         libc::write(1, buf[i..].as_ptr() as *const libc::c_void, buf.len() - i);
         // Returning null would end in handle_alloc_error -> abort(); leave at once instead
         // (exit code 86 = "allocation refused", the parent reports it with the size above).
-        libc::_exit(86);
+        if refused { libc::_exit(86); }
     }
 }
 
 #[inline]
 fn note(size: usize) -> bool {
     if size > MAX_REQ.load(Relaxed) { MAX_REQ.fetch_max(size, Relaxed); }
-    if size > CAP.load(Relaxed) { report_refused(size); return false }
+    if size > CAP.load(Relaxed) { report(size, true); return false }
+    if size > REPORT_FROM.load(Relaxed) { report(size, false); }
     true
 }
 
